@@ -36,6 +36,7 @@ NCPU = os.cpu_count() or 4
 SUFFIX = "" if os.path.realpath(REPO) == "/repo" else "-" + hashlib.sha1(os.path.realpath(REPO).encode()).hexdigest()[:8]
 # development aid: VERIF_ONLY_FILES=<regex> compiles only the harness _test.go files whose path matches (shared
 # non-test overlay packages are always included), so that somebody else's half-written file cannot break a build
+KNOWN = os.environ.get("VERIF_KNOWN") or os.path.join(VERIF, "known_findings.json")  # development: private copy
 ONLY = os.environ.get("VERIF_ONLY_FILES")
 if ONLY:
     SUFFIX += "-only" + hashlib.sha1(ONLY.encode()).hexdigest()[:6]
@@ -175,7 +176,7 @@ def run_shard(u, binary, shard, seed, tier, rundir, extra_env=None, replay=None)
         "VERIF_SHARD": name,
         "VERIF_SEED": str(seed),
         "VERIF_TIER": tier,
-        "VERIF_KNOWN": os.path.join(VERIF, "known_findings.json"),
+        "VERIF_KNOWN": KNOWN,
         "VERIF_DIR": VERIF,
         "VERIF_REPO": REPO,
         "VERIF_SCRATCH": cwd,
@@ -297,7 +298,7 @@ def validate_evidence(doc):
 # ----------------------------------------------------------------------------- main
 
 def load_known():
-    p = os.path.join(VERIF, "known_findings.json")
+    p = KNOWN
     if not os.path.exists(p):
         return []
     return json.load(open(p)).get("findings", [])
@@ -531,7 +532,7 @@ def main():
         print(line)
     for dest, msg in violations:
         print("VIOLATION property=%s replay=%s" % (pid, dest))
-        log("  " + msg[:600].replace("\n", "\n  "))
+        log("  >> " + msg[:600].replace("\n", "\n     "))
     log("%s %s: %d evaluations, %d distinct non-trivial, %d violations, %.1fs" % (pid, tier, evaluations, distinct, len(violations), wall))
     if not os.environ.get("VERIF_KEEP") and not violations and not infra:
         shutil.rmtree(rundir, ignore_errors=True)
